@@ -120,4 +120,12 @@ theorem interop_unencrypted (codec : Codec) (version shift hashSize : Nat) (file
   · rw [← e]
     exact Mpq.archive_roundtrip codeConv codec version shift hashSize files hv hshift hd hle hhs hokC hsize i hi
 
+/-- EVERY BLOCK ENTRY ANNOUNCES AN EXTENT INSIDE THE FILE AREA: the position and stored size the writer records for each
+    file (the first two fields of its block-table row) lie inside the bytes the writer lays down for the files — no entry
+    points before the header's end or past the last file (what a strict reader checks before it reads) -/
+theorem block_extents_inside (c : Conv) (ssz : Nat) (files : List FileSpec) (pos : Nat) :
+    ∀ e ∈ writeArchiveCore.place c ssz files pos,
+      pos ≤ e.2.1 ∧ e.2.1 + e.2.2.1 ≤ pos + ((writeArchiveCore.place c ssz files pos).flatMap (·.1)).length ∧ e.2.2.2.2 < 2 ^ 32 :=
+  fun e he => ⟨(Mpq.place_rows c ssz files pos e he).1, (Mpq.place_rows c ssz files pos e he).2.1, (Mpq.place_rows c ssz files pos e he).2.2.2⟩
+
 end Wv.C02
